@@ -1652,12 +1652,28 @@ func (fx *FuncExec) staticCallOrdinals() {
 					name = fx.V.funcKey(v.Fn.(*ssa.Function))
 				case *ssa.Builtin:
 					continue
+				case *ssa.UnOp:
+					if g, ok := v.X.(*ssa.Global); ok {
+						name = "dynamic:" + g.Name()
+					} else {
+						continue
+					}
+				case *ssa.Lookup:
+					u, ok := v.X.(*ssa.UnOp)
+					if !ok {
+						continue
+					}
+					g, ok := u.X.(*ssa.Global)
+					if !ok {
+						continue
+					}
+					name = "dynamic:" + g.Name() + "[]"
 				default:
 					continue // resolved dynamically: execution-order ordinals
 				}
 			}
 			short := name
-			if i := strings.LastIndex(short, ":"); i >= 0 {
+			if i := strings.LastIndex(short, ":"); i >= 0 && !strings.HasPrefix(short, "dynamic") {
 				short = short[i+1:]
 			}
 			byName[short] = append(byName[short], in)
